@@ -20,6 +20,9 @@ theorem constFold_literal_is_constant {N : Type} (ops : ConstFold.NumOps N) (e :
     (h : ConstFold.allLiteral e = true) : ∃ v, ConstFold.lnumberValue ops (ConstFold.constFold ops e).1 = some v :=
   C01.constFold_literal_is_constant ops e h
 
+section
+variable [GLua.Compile.NumStruct]
+
 open GLua.Compile GLua.MiniVM GLua.Lowering in
 theorem branch_lowering_correct {V : Type} (d : Dom V) (hd : d.Lawful) (e : Cond) (hfrag : BCFrag e)
     (st F : CState) (reg thenl elsel : Nat) (ρ γ : Nat → V) (v : V)
@@ -55,10 +58,107 @@ theorem assign_locals_parallel_prefix_fails : ¬ C01.AssignParallel Compile.comp
 
 open GLua.Compile GLua.MiniVM GLua.Lowering in
 theorem jump_threading_sound {V : Type} (d : Dom V) (orig : List Instr) (lp : List (Nat × Int)) (consts : List Konst)
-    (pc : Nat) (sbx : Int) (ρ g : Nat → V) (res : Int)
+    (pc : Nat) (sbx : Int) (ρ g : Nat → V) (res : Int) (hlab : ∀ L, -1 ≤ lookupLabel lp L)
     (hcur : orig[pc]? = some (.jmp sbx)) (h : threadJmp orig lp pc 5 (.jmp sbx) 0 = .ok res) :
     0 ≤ (pc : Int) + res + 1 ∧
       ReachesPlus d (resolveLabels orig lp) consts ⟨pc, ρ, g⟩ ⟨((pc : Int) + res + 1).toNat, ρ, g⟩ :=
-  C01.jump_threading_sound d orig lp consts pc sbx ρ g res hcur h
+  C01.jump_threading_sound d orig lp consts pc sbx ρ g res hlab hcur h
+
+/-! ### the extended fragment (every expression of the model) -/
+
+theorem fold_test_is_constFold (e : Compile.Cond) :
+    Compile.lnum e = ConstFold.lnumberValue ConstFold.nsOps (ConstFold.constFold ConstFold.nsOps (ConstFold.toCF e)).1 :=
+  C01.fold_test_is_constFold e
+
+open GLua.Compile in
+theorem fold_is_sound_for_the_manual {V : Type} (d : Dom V) (hd : d.Lawful) (ρ γ : Nat → V) (e : Cond) (x : NumStruct.N)
+    (h : lnum e = some x) : CondSpec.eval d ρ γ e = some (d.num x) :=
+  C01.fold_is_sound_for_the_manual d hd ρ γ e x h
+
+open GLua.Compile GLua.MiniVM GLua.Lowering in
+theorem value_lowering_correct_ext {V : Type} (d : Dom V) (hd : d.Lawful) (e : Cond)
+    (st F : CState) (reg : Nat) (ec : ExpCtx) (ρ γ : Nat → V) (v : V)
+    (htop : st.regTop ≤ reg) (hloc : LocalsBelow reg e) (hreg : reg + rh e < 256) (hdest : savereg ec reg ≤ reg)
+    (hev : CondSpec.eval d ρ γ e = some v) (hok : ∀ L, LabelOK F L)
+    (hF : (compileExpr st reg e ec).1.code <+: F.code)
+    (hK : (compileExpr st reg e ec).1.consts <+: F.consts)
+    (hlab : ∀ L, st.labelId ≤ L → L < (compileExpr st reg e ec).1.labelId →
+        getLabelPc F L = getLabelPc (compileExpr st reg e ec).1 L) :
+    ∃ ρ', Reaches d (P0 F) F.consts ⟨st.code.length, ρ, γ⟩ ⟨(compileExpr st reg e ec).1.code.length, ρ', γ⟩ ∧
+      ρ' (savereg ec reg) = v ∧ ∀ x, x < reg → x ≠ savereg ec reg → ρ' x = ρ x :=
+  C01.value_lowering_correct_ext d hd e st F reg ec ρ γ v htop hloc hreg hdest hev hok hF hK hlab
+
+open GLua.Compile GLua.MiniVM GLua.Lowering in
+theorem branch_lowering_correct_ext {V : Type} (d : Dom V) (hd : d.Lawful) (e : Cond)
+    (st F : CState) (reg thenl elsel : Nat) (hasnext : Bool) (ρ γ : Nat → V) (v : V)
+    (htop : st.regTop ≤ reg) (hloc : LocalsBelow reg e) (hreg : reg + rh e < 256) (hok : ∀ L, LabelOK F L)
+    (hev : CondSpec.eval d ρ γ e = some v)
+    (hF : (compileBranchCondition st reg e thenl elsel hasnext).code <+: F.code)
+    (hK : (compileBranchCondition st reg e thenl elsel hasnext).consts <+: F.consts)
+    (hlab : ∀ L, st.labelId ≤ L → L < (compileBranchCondition st reg e thenl elsel hasnext).labelId →
+        getLabelPc F L = getLabelPc (compileBranchCondition st reg e thenl elsel hasnext) L) :
+    ∃ ρ' pc', Reaches d (P0 F) F.consts ⟨st.code.length, ρ, γ⟩ ⟨pc', ρ', γ⟩ ∧ (∀ x, x < reg → ρ' x = ρ x) ∧
+      BranchOut F thenl elsel hasnext (compileBranchCondition st reg e thenl elsel hasnext).code.length (d.truthy v) pc' :=
+  C01.branch_lowering_correct_ext d hd e st F reg thenl elsel hasnext ρ γ v htop hloc hreg hok hev hF hK hlab
+
+open GLua.Compile GLua.MiniVM GLua.Lowering in
+theorem propagation_pops_only_the_operands_own_load (kmv : Bool) (c : Cond) (st : CState) (reg : Nat) (htop : st.regTop ≤ reg) :
+    ((opr kmv c reg st).1.code = (comp c (.expr reg ecnone0) st).st.code ∧ (opr kmv c reg st).2.1 = reg ∧ (opr kmv c reg st).2.2 = reg + 1) ∨
+    (∃ i, (comp c (.expr reg ecnone0) st).st.code = st.code ++ [i] ∧ (opr kmv c reg st).1.code = st.code ∧ i.argA = reg ∧
+      (opr kmv c reg st).2.2 = reg ∧
+      ((∃ r, c = .loc r ∧ i = .move reg r ∧ (opr kmv c reg st).2.1 = r) ∨
+       (∃ k idx, konstOf c = some k ∧ kmv = true ∧ idx ≤ Generated.opMaxIndexRk ∧ i = .loadk reg idx ∧
+          (opr kmv c reg st).1.consts[idx]? = some k ∧ (opr kmv c reg st).2.1 = idx + Generated.opBitRk))) :=
+  C01.propagation_pops_only_the_operands_own_load kmv c st reg htop
+
+open GLua.Compile GLua.MiniVM GLua.Lowering in
+theorem operand_value_is_where_the_field_says {V : Type} (d : Dom V) (hd : d.Lawful) (kmv : Bool) (c : Cond)
+    (st F : CState) (reg : Nat) (ρ γ : Nat → V) (vc : V)
+    (htop : st.regTop ≤ reg) (hloc : LocalsBelow reg c) (hreg : reg + rh c < 256) (hev : CondSpec.eval d ρ γ c = some vc)
+    (hok : ∀ L, LabelOK F L)
+    (hF : (opr kmv c reg st).1.code <+: F.code) (hK : (opr kmv c reg st).1.consts <+: F.consts)
+    (hlab : ∀ L, st.labelId ≤ L → L < (opr kmv c reg st).1.labelId → getLabelPc F L = getLabelPc (opr kmv c reg st).1 L) :
+    ∃ ρ1, Reaches d (P0 F) F.consts ⟨st.code.length, ρ, γ⟩ ⟨(opr kmv c reg st).1.code.length, ρ1, γ⟩ ∧
+      (∀ x, x < reg → ρ1 x = ρ x) ∧ rkValue d F.consts ρ1 (opr kmv c reg st).2.1 = some vc ∧
+      ((opr kmv c reg st).2.1 < (opr kmv c reg st).2.2 ∨ 256 ≤ (opr kmv c reg st).2.1) :=
+  C01.operand_value_is_where_the_field_says d hd kmv c st F reg ρ γ vc htop hloc hreg hev hok hF hK hlab
+
+theorem lowering_total : C01.lowering_total_full := C01.lowering_total
+
+open GLua.Compile GLua.MiniVM GLua.Lowering in
+theorem branch_lowering_raises {V : Type} (d : Dom V) (hd : d.Lawful) (e : Cond)
+    (st F : CState) (reg thenl elsel : Nat) (hasnext : Bool) (ρ γ : Nat → V)
+    (htop : st.regTop ≤ reg) (hloc : LocalsBelow reg e) (hreg : reg + rh e < 256) (hok : ∀ L, LabelOK F L)
+    (hev : CondSpec.eval d ρ γ e = none)
+    (hF : (compileBranchCondition st reg e thenl elsel hasnext).code <+: F.code)
+    (hK : (compileBranchCondition st reg e thenl elsel hasnext).consts <+: F.consts)
+    (hlab : ∀ L, st.labelId ≤ L → L < (compileBranchCondition st reg e thenl elsel hasnext).labelId →
+        getLabelPc F L = getLabelPc (compileBranchCondition st reg e thenl elsel hasnext) L) :
+    ∃ n site, run d (P0 F) F.consts n ⟨st.code.length, ρ, γ⟩ = some (.luaError site) :=
+  C01.branch_lowering_raises d hd e st F reg thenl elsel hasnext ρ γ htop hloc hreg hok hev hF hK hlab
+
+open GLua.Compile GLua.MiniVM GLua.Lowering in
+theorem binary_operands_left_to_right {V : Type} (d : Dom V) (hd : d.Lawful) (l r : Cond)
+    (st F : CState) (reg : Nat) (ρ γ : Nat → V) (x y : V)
+    (htop : st.regTop ≤ reg) (hll : LocalsBelow reg l) (hlr : LocalsBelow reg r) (hreg : reg + max (rh l) (rh r + 1) < 256)
+    (hx : CondSpec.eval d ρ γ l = some x) (hy : CondSpec.eval d ρ γ r = some y) (hok : ∀ L, LabelOK F L)
+    (hF : (bops l r st reg).1.code <+: F.code) (hK : (bops l r st reg).1.consts <+: F.consts)
+    (hlab : ∀ L, st.labelId ≤ L → L < (bops l r st reg).1.labelId → getLabelPc F L = getLabelPc (bops l r st reg).1 L) :
+    (opr true l reg st).1.code <+: (bops l r st reg).1.code ∧
+    ∃ ρ1 ρ2, Reaches d (P0 F) F.consts ⟨st.code.length, ρ, γ⟩ ⟨(opr true l reg st).1.code.length, ρ1, γ⟩ ∧
+      rkValue d F.consts ρ1 (bops l r st reg).2.1 = some x ∧ (∀ z, z < reg → ρ1 z = ρ z) ∧
+      Reaches d (P0 F) F.consts ⟨(opr true l reg st).1.code.length, ρ1, γ⟩ ⟨(bops l r st reg).1.code.length, ρ2, γ⟩ ∧
+      (∀ z, z < reg → ρ2 z = ρ z) ∧
+      rkValue d F.consts ρ2 (bops l r st reg).2.1 = some x ∧ rkValue d F.consts ρ2 (bops l r st reg).2.2 = some y :=
+  C01.binary_operands_left_to_right d hd l r st F reg ρ γ x y htop hll hlr hreg hx hy hok hF hK hlab
+
+end
+
+theorem constFold_again {N : Type} (ops : ConstFold.NumOps N) (e : ConstFold.Expr N) :
+    ConstFold.lnumberValue ops (ConstFold.constFold ops (ConstFold.constFold ops e).1).1
+        = ConstFold.lnumberValue ops (ConstFold.constFold ops e).1 ∧
+    ConstFold.lnumberValue ops (ConstFold.constFold ops (ConstFold.constFold ops e).2).1
+        = ConstFold.lnumberValue ops (ConstFold.constFold ops e).1 :=
+  C01.constFold_again ops e
 
 end GLua.Props.C01M
